@@ -29,7 +29,7 @@ REPORT_COUNTERS = ['programs', 'runs', 'rows_ok', 'tables_checked', 'tables_ok',
 
 def plan(tier, seed):
   return {'nshards': 16, 'timeout_s': 5400 if tier == 'thorough' else 1200,
-          'params': {'n_programs': 400 if tier == 'thorough' else 40}}
+          'params': {'n_programs': 300 if tier == 'thorough' else 40}}
 
 
 def features_for(i):
